@@ -183,5 +183,111 @@ func init() {
 			"with all its shifted re-runs; non-trivial = all of them")
 		c.Assume("the code touches absolute sn/ts values only through differences and wrapping adds, so behaviour can depend on an offset only through where a boundary falls relative to the run's events")
 		vfC12core(c)
+		vfC12fec(c)
 	})
+}
+
+// FEC part of C12: the encoder's sequence ids wrap at a multiple of the group size without disturbing
+// recovery — also when parity is skipped (idle gap) in the groups around the wrap.
+func vfC12fec(c *hx.Ctx) {
+	if c.Shard != 0 && c.Of > 1 {
+		// cheap: one shard does it all
+		return
+	}
+	if c.Skip("fec-wrap") {
+		return
+	}
+	start := time.Now()
+	u := &hx.Unit{Name: "fec-wrap", Kind: "enum", Exhaustive: true, Params: map[string]any{"ratios": "1/1 2/1 3/2 4/2 10/3 12/3", "encoder_start": "0..4 groups before the wrap value", "idle_gap": "none, or >rto before every data packet position of 6 groups"}}
+	viol := func(sig, msg string) {
+		for _, v := range u.Violations {
+			if v.Signature == sig {
+				v.Count++
+				return
+			}
+		}
+		u.Violations = append(u.Violations, c.NewViolation("fec-wrap", u.Params, sig, msg, ""))
+	}
+	for _, dp := range [][2]int{{1, 1}, {2, 1}, {3, 2}, {4, 2}, {10, 3}, {12, 3}} {
+		d, p := dp[0], dp[1]
+		size := uint32(d + p)
+		paws := uint32(0xffffffff) / size * size
+		const ngroups = 6
+		for back := uint32(0); back <= 4; back++ {
+			for gap := -1; gap < ngroups*d; gap++ {
+				u.Executions++
+				if gap >= 0 {
+					u.NonTrivial++
+				}
+				vrt.SetSeqNow(0)
+				enc := newFECEncoder(d, p, 0)
+				enc.next = (paws - back*size) % paws
+				enc.tsLatestPacket = vrt.Now().UnixMilli()
+				// a decoder that has followed the stream so far
+				dec := newFECDecoder(d, p)
+				dec.newestShardId, dec.hasNewest = ((paws-back*size)%paws)/size, true
+				var last uint32
+				have := false
+				where := fmt.Sprintf("%d/%d encoder starting %d groups before the wrap, idle gap before data packet %d", d, p, back, gap)
+				for j := 0; j < ngroups*d; j++ {
+					if j == gap {
+						vrt.Advance(time.Duration(maxFECEncodeLatency+100) * time.Millisecond)
+					}
+					vrt.Advance(time.Millisecond)
+					b := make([]byte, fecHeaderSizePlus2+20, 1500)
+					for k := 0; k < 20; k++ {
+						b[fecHeaderSizePlus2+k] = byte(j + k + 1)
+					}
+					ps := enc.encode(b, maxFECEncodeLatency)
+					pkts := [][]byte{b}
+					pkts = append(pkts, ps...)
+					// wire-level id discipline
+					for _, x := range pkts {
+						id := fecPacket(x).seqid()
+						if id >= paws {
+							viol("C12:fec-id-not-below-wrap-value", fmt.Sprintf("%s: emitted id %d >= wrap value %d", where, id, paws))
+						}
+						if (id%size < uint32(d)) != (fecPacket(x).flag() == typeData) {
+							viol("C12:fec-type-position-mismatch-after-wrap", fmt.Sprintf("%s: id %d (position %d) carries type %#x", where, id, id%size, fecPacket(x).flag()))
+						}
+						if have {
+							adv := uint32((uint64(id) + uint64(paws) - uint64(last)) % uint64(paws))
+							if adv == 0 || adv > uint32(p)+1 {
+								viol("C12:fec-id-order-across-wrap", fmt.Sprintf("%s: id %d follows %d", where, id, last))
+							}
+						}
+						last, have = id, true
+					}
+					// the receiver loses the first data packet of every group and must get it back whenever parity was sent
+					groupStart := j%d == 0
+					if !groupStart {
+						for _, r := range dec.decode(fecPacket(b)) {
+							defaultBufferPool.Put(r)
+						}
+					}
+					if len(ps) > 0 {
+						recovered := 0
+						for _, x := range ps {
+							for _, r := range dec.decode(fecPacket(append([]byte(nil), x...))) {
+								recovered++
+								defaultBufferPool.Put(r)
+							}
+						}
+						if d > 1 && recovered != 1 {
+							viol("C12:fec-no-recovery-around-wrap", fmt.Sprintf("%s: the group ending at id %d lost its first data packet, parity arrived, %d packets were recovered", where, last, recovered))
+						}
+					}
+					if dec.shouldTune {
+						viol("C12:fec-wrap-triggers-tuning", fmt.Sprintf("%s: genuine packets around the wrap made the decoder suspend decoding", where))
+						dec.shouldTune = false
+					}
+				}
+			}
+		}
+	}
+	u.Samples = append(u.Samples, map[string]any{"ratio": "3/2", "encoder_start_groups_before_wrap": 2, "idle_gap_before_data_packet": 5})
+	u.EndStatesN = u.Executions
+	u.Exhaustive = len(u.Violations) == 0
+	u.WallS = time.Since(start).Seconds()
+	c.AddUnit(u)
 }
